@@ -35,8 +35,8 @@ def run_c06(ck):
     # quick: 8 networks (every kind of the generator's rotation once), <= 4 cuts each, chosen among the instants of highest
     # in-flight load, the last instant and random ones. thorough: every distinct event time of 6 small networks + 20 sampled
     # cuts of 8 larger ones.
-    plans = [dict(networks=8, msgs=30, max_cuts=4, first=0)] if q else [dict(networks=6, msgs=16, max_cuts=0, first=0),
-                                                                         dict(networks=8, msgs=60, max_cuts=20, first=6)]
+    plans = [dict(networks=8, msgs=30, max_cuts=4, first=0)] if q else [dict(networks=3, msgs=16, max_cuts=0, first=0),
+                                                                         dict(networks=8, msgs=60, max_cuts=12, first=6)]
     outs, traces = [], []
     for i, p in enumerate(plans):
         path = os.path.join(d, "spliced%d.ndjson" % i)
